@@ -38,7 +38,7 @@ func (w *World) keyObj(name string, variant int) (crypto.PublicKey, *big.Int) {
 	case "na":
 		return w.PK(map[string]int{"x1": -1}, variant%2), new(big.Int).Sub(ref.R, w.Scalar("x1"))
 	case "b":
-		return w.PK(map[string]int{"x2": 1}, variant%6), w.Scalar("x2")
+		return w.PK(map[string]int{"x2": 1}, variant%7), w.Scalar("x2")
 	}
 	return w.PK(map[string]int{}, variant), new(big.Int)
 }
